@@ -153,9 +153,7 @@ impl Sandbox {
         self.state.insert(rel.to_string(), (crate::rng::hash_bytes(data), stat_of(&full).unwrap()));
     }
 
-    /// Run one step in the sandbox as it is now; afterwards the step's outputs stay in place
-    /// (and are recorded as known state, so that the next step's outputs can be told apart).
-    pub fn run(&mut self, cfg: &Config, step: &Step) -> Outcome {
+    fn spawn_once(&mut self, cfg: &Config, step: &Step, cpu_s: u64) -> std::process::Output {
         let _ = std::fs::remove_file(&self.log);
         let mut cmd = Command::new(&cfg.truth_bin);
         cmd.args(&step.argv).current_dir(&self.dir).env_clear();
@@ -167,10 +165,45 @@ impl Sandbox {
             cmd.env(k, v);
         }
         cmd.stdin(Stdio::null()).stdout(Stdio::piped()).stderr(Stdio::piped());
-        cmd.env("TRUSIM_CPU_S", cfg.cpu_limit_s.to_string()).env("TRUSIM_AS_BYTES", cfg.as_limit_bytes.to_string());
+        cmd.env("TRUSIM_CPU_S", cpu_s.to_string()).env("TRUSIM_AS_BYTES", cfg.as_limit_bytes.to_string());
         let child = cmd.spawn().unwrap_or_else(|e| panic!("spawn {}: {}", cfg.truth_bin.display(), e));
-        let out = child.wait_with_output().expect("wait");
         self.runs += 1;
+        child.wait_with_output().expect("wait")
+    }
+
+    /// Run one step in the sandbox as it is now; afterwards the step's outputs stay in place
+    /// (and are recorded as known state, so that the next step's outputs can be told apart).
+    ///
+    /// CPU budget: in this kind of VM the CPU time charged to a process inflates by an order of
+    /// magnitude when many processes start at once, so a run killed by SIGXCPU is *confirmed* before
+    /// it counts as a hang: its partial outputs are removed and it is re-executed once, alone (under
+    /// a process-wide lock), with six times the budget.  Only the confirmation's outcome is reported.
+    pub fn run(&mut self, cfg: &Config, step: &Step) -> Outcome {
+        let mut out = self.spawn_once(cfg, step, cfg.cpu_limit_s);
+        if matches!(out.status.signal(), Some(libc::SIGXCPU) | Some(libc::SIGKILL)) {
+            static CONFIRM: std::sync::Mutex<()> = std::sync::Mutex::new(());
+            let _g = CONFIRM.lock().unwrap_or_else(|e| e.into_inner());
+            // remove partial outputs of the killed run (files that were not there before)
+            let mut present = vec![];
+            let mut dirs = vec![];
+            walk_files(&self.dir, &self.dir, &mut present, &mut dirs);
+            let mut restorable = true;
+            for rel in present {
+                match self.state.get(&rel) {
+                    None => {
+                        let _ = std::fs::remove_file(self.dir.join(&rel));
+                    }
+                    Some((_, st)) => {
+                        if stat_of(&self.dir.join(&rel)) != Some(*st) {
+                            restorable = false;
+                        }
+                    }
+                }
+            }
+            if restorable {
+                out = self.spawn_once(cfg, step, cfg.cpu_limit_s * 6);
+            }
+        }
         let mut o = Outcome { exit: out.status.code(), signal: out.status.signal(), stdout: out.stdout, stderr: out.stderr, ..Default::default() };
         // event log
         if let Ok(log) = std::fs::read(&self.log) {
